@@ -175,10 +175,10 @@ def layout_cases(draw):
     t = dict(fit=draw(st.sampled_from(["same"] + LAYOUTS)), query=draw(st.sampled_from(["same", "2d", "fortran", "strided", "series", "0d"])),
              extra=draw(st.integers(0, 2)), qextra=draw(st.integers(0, 1)))
     if integer:
-        t["dtype_coords"] = draw(st.sampled_from(["float64", "int64", "int32"]))
-        t["dtype_data"] = draw(st.sampled_from(["float64", "int64", "int32"]))
+        t["dtype_coords"] = draw(st.sampled_from(["float64", "int64", "int32", "uint16", "uint32", "int16", "uint8", "int8"]))
+        t["dtype_data"] = draw(st.sampled_from(["float64", "int64", "int32", "uint16", "int16", "int8"]))
         t["mixed_components"] = draw(st.booleans())  # second component keeps fractional float values while the first has an integer dtype
-        t["dtype_query"] = draw(st.sampled_from(["float64", "int64", "int32"]))
+        t["dtype_query"] = draw(st.sampled_from(["float64", "int64", "int32", "uint16", "uint32", "int16", "uint8"]))
     t["fit_shape"] = draw(st.sampled_from(blocks.shape_options(n)[1:] or [[n, 1]]))
     t["query_shape"] = draw(st.sampled_from(blocks.shape_options(m)[1:] or [[m, 1]]))
     case["transform"] = t
@@ -208,6 +208,13 @@ def check_layout(case, ctx):
     ref = fit_predict(case, np.array(e, dtype="float64"), np.array(n, dtype="float64"), [np.array(d, dtype="float64") for d in case["data"]],
                       np.array(qe, dtype="float64"), np.array(qn, dtype="float64"))
     dc, dd, dq = t.get("dtype_coords", "float64"), t.get("dtype_data", "float64"), t.get("dtype_query", "float64")
+
+    def fits(dt, *arrays):
+        # a narrow or unsigned dtype only when every value is representable; otherwise the signed 64-bit type
+        if dt != "float64" and any(min(a) < np.iinfo(dt).min or max(a) > np.iinfo(dt).max for a in arrays):
+            return "int64"
+        return dt
+    dc, dd, dq = fits(dc, e, n), fits(dd, *case["data"]), fits(dq, qe, qn)
     fit_kind = t["fit"]
     e2, n2 = present(e, fit_kind, t["fit_shape"], dc), present(n, fit_kind, t["fit_shape"], dc)
     data2 = [present(d, fit_kind, t["fit_shape"], dd) for d in case["data"]]
@@ -226,6 +233,7 @@ def check_layout(case, ctx):
     changed = fit_kind != "same" or t["query"] != "same" or t["extra"] or t["qextra"] or (dc, dd, dq) != ("float64",) * 3
     ctx.label(case["gridder"], "fit_" + fit_kind, "query_" + t["query"], "extra%d" % t["extra"])
     if (dc, dd, dq) != ("float64",) * 3:
+        ctx.label(*["narrow_or_unsigned_" + w for w, d_ in (("coords", dc), ("data", dd), ("query", dq)) if d_ not in ("float64", "int64", "int32")])
         ctx.label("int_coords" if dc != "float64" else "float_coords", "int_data" if dd != "float64" else "float_data", "int_query" if dq != "float64" else "float_query")
     ctx.nt(bool(changed) and len(e) >= 4)
 
